@@ -1050,6 +1050,9 @@ class Variable(CanBehaveLikeAVariable[T]):
         # Compute truth considering inversion
         result_truthy = bool(function_output)
         self._is_false_ = result_truthy if self._invert_ else not result_truthy
+        if self._predicate_type_ == PredicateType.DecoratedMethod and not DomainMapping._is_a_condition_.fget(self):
+            # the result of a function used as a value (an operand, an argument) is passed on whatever its truthiness.
+            self._is_false_ = False
 
         if self._yield_when_false_ or not self._is_false_:
             hv = function_output if isinstance(function_output, HashedValue) else HashedValue(function_output)
